@@ -86,6 +86,12 @@ def rand_file(rng):
                 tr.append(Message('note_on', note=rng.randrange(128), channel=ti, time=d))
         if rng.random() < 0.7:
             tr.append(MetaMessage('end_of_track', time=rng.choice((0, 0, 100, 10 ** 5))))
+        if rng.random() < 0.15:
+            # frozen messages are messages too (mido.frozen)
+            from mido.frozen import freeze_message
+            for i in range(len(tr)):
+                if rng.random() < 0.5:
+                    tr[i] = freeze_message(tr[i])
         mid.tracks.append(tr)
     return mid
 
@@ -112,7 +118,8 @@ def model_seconds(mid):
 def same_but_time(g, w):
     vg = {k: v for k, v in vars(g).items() if k != 'time'}
     vw = {k: v for k, v in vars(w).items() if k != 'time'}
-    return type(g) is type(w) and vg == vw
+    # frozen or not is not judged for the yielded copies, the values are
+    return g.is_meta == w.is_meta and vg == vw
 
 
 def judge_iter(ctx, mid, case, clause='cumulative seconds == tempo-map integral'):
@@ -236,6 +243,14 @@ def judge_play(ctx, mid, model, pattern, oversleep, meta_messages, seed):
         mf.time = orig
 
 
+def replace_in(mid, old, new):
+    for tr in mid.tracks:
+        for i, x in enumerate(tr):
+            if x is old:
+                tr[i] = new
+                return
+
+
 def file_case(ctx, seed, tier):
     rng = random.Random(seed)
     mid = rand_file(rng)
@@ -265,10 +280,11 @@ def file_case(ctx, seed, tier):
         if what == 'tpb':
             mid.ticks_per_beat = rng.choice((1, 24, 96, 960, 32767))
         elif what == 'tempo' and tempos:
-            rng.choice(tempos).tempo = rng.randrange(1, 2 ** 24)
+            t = rng.choice(tempos)
+            replace_in(mid, t, t.copy(tempo=rng.randrange(1, 2 ** 24)))
         elif what == 'delta' and allm:
             m = rng.choice(allm)
-            m.time = m.time + rng.choice((1, 100))
+            replace_in(mid, m, m.copy(time=m.time + rng.choice((1, 100))))
         elif what == 'remove-tempo' and tempos:
             t = rng.choice(tempos)
             for tr in mid.tracks:
@@ -316,6 +332,42 @@ def real_clock_case(ctx, seed):
     ctx.check('play yields the iterated messages (meta on request)', ok, 'real-clock-messages', case, None)
     early = [(i, at, float(c)) for i, ((g, at), (w, c)) in enumerate(zip(got, want)) if at < float(c) - 0.0005]
     ctx.check('never early', not early, 'real-clock-early', case, early[:3])
+
+
+def other_platform_case(ctx, platform, seed):
+    """Code that is conditional on sys.platform cannot be reached here; as a substitute the same
+    file cases run in a child interpreter in which sys.platform was changed BEFORE mido is
+    imported.  A child that cannot even import is not judged."""
+    import json
+    import os
+    import subprocess
+    import sys
+    code = (
+        "import sys, json\n"
+        f"sys.platform = {platform!r}\n"
+        "try:\n"
+        "    import mido\n"
+        "    from vmon.core import Ctx\n"
+        "    from vmon.props import c13\n"
+        "except Exception as exc:\n"
+        "    print(json.dumps({'import_failed': repr(exc)})); raise SystemExit(0)\n"
+        "ctx = Ctx('C13', 'quick', 0)\n"
+        f"for j in range(3): c13.file_case(ctx, {seed!r} + ':' + str(j), 'quick')\n"
+        "print(json.dumps({'violations': ctx.violations[:3], 'evaluations': sum(ctx.counters.values())}))\n")
+    env = dict(os.environ)
+    try:
+        r = subprocess.run([sys.executable, '-B', '-c', code], capture_output=True, text=True, timeout=120, env=env)
+        out = json.loads(r.stdout.strip().splitlines()[-1])
+    except Exception as exc:
+        ctx.count('other-platform child not usable (not judged)')
+        return
+    if 'import_failed' in out:
+        ctx.count('other-platform child not usable (not judged)')
+        return
+    case = {'kind': 'other-platform', 'platform': platform, 'seed': seed}
+    ctx.check('after edit == model', not out['violations'], f'platform-dependent:{platform}', case,
+              lambda: [[v['clause'], v['key']] for v in out['violations']])
+    ctx.extra('clause_evaluations_in_other_platform_children', out['evaluations'])
 
 
 def type2_cases(ctx):
@@ -377,6 +429,10 @@ def run(ctx):
     for j in range(1 if ctx.tier == 'quick' else 10):
         real_clock_case(ctx, f'{ctx.seed}:{ctx.shard}:rc{j}')
         n += 1
+    for pi, platform in enumerate(('win32', 'darwin', 'cygwin')):
+        if pi % ctx.nshards == (ctx.shard + 3) % ctx.nshards:
+            other_platform_case(ctx, platform, f'{ctx.seed}:{platform}')
+            n += 1
     if ctx.shard == 0:
         k = type2_cases(ctx)
         ctx.nontrivial(None, k)
@@ -393,6 +449,8 @@ def replay(ctx, case):
     if k in ('file', 'play'):
         seed = case['seed'].split(':')
         file_case(ctx, ':'.join(seed[:3]), 'thorough')
+    elif k == 'other-platform':
+        other_platform_case(ctx, case['platform'], case['seed'])
     elif k == 'real-clock':
         real_clock_case(ctx, case['seed'])
     elif k == 'type2':
